@@ -34,7 +34,7 @@ REAL = ['smartquery.* (two independently imported copies)', 'smartquery.ply']
 STUB = ['parse_cache mapping (simulator-owned fakes)', 'host (mutates returned results)']
 REACH_PROBES = ('cache_hit', 'hit_after_fault', 'near_duplicate_call', 'lru_evict', 'cache_evict', 'cache_drop_write',
                 'host_mutate_result', 'failing_source', 'reentry', 'prewarmed_hit', 'same_source_other_names',
-                'cached_tree_snapshot_checked', 'list_names_between_calls', 'decimal_context_switched')
+                'cached_tree_snapshot_checked', 'list_names_between_calls', 'decimal_context_switched', 'deferred_listing_read', 'host_calls_stored_lambda')
 
 STRIP_CHARS = [' ', '\t', '\n', '\r\n', '\x0b', '\x0c', '\x1c', '\x1d', '\x1e', '\x1f', '\x85', '\xa0', ' ', ' ', '　', '  ', '\n\n']
 
@@ -107,7 +107,11 @@ def generate(seed, tier):
     ops = []
     weights = [1.0 / (i + 1) for i in range(len(pool))]
     for _ in range(rc.randint(8, 40)):
-        k = weighted(ro, [('eval', 6), ('parse', 3), ('host_mutate', 1.5), ('cache_fault', 1.2), ('list_names', 0.8), ('ctx', 0.3)])
+        k = weighted(ro, [('eval', 6), ('parse', 3), ('host_mutate', 1.5), ('cache_fault', 1.2), ('list_names', 0.8), ('ctx', 0.3), ('hostcall', 0.8)])
+        if k == 'hostcall':
+            # outside any evaluation the host calls a lambda that an earlier evaluation left in one of its names mappings
+            ops.append({'op': 'hostcall', 'space': ro.randrange(2), 'which': ro.randrange(4), 'arg': ro.choice([0, 1, 2, 'a'])})
+            continue
         if k == 'ctx':
             # the host switches the thread's decimal context between calls (both worlds live under it)
             ops.append({'op': 'ctx', 'prec': ro.choice([5, 8, 28, 40, 3])})
@@ -116,6 +120,9 @@ def generate(seed, tier):
             # the dependency lister runs on the same parser objects, to the end or abandoned after j names
             ops.append({'op': 'list_names', 'src': ro.choice(pool + ['f(a, [b, {c: (d', 'a + (b', 'x[1', '{"k": [y, (z']), 'consume': ro.choice([None, None, 0, 1, 2, 3]),
                         'pool': 0, 'space': 0})
+            if ro.random() < 0.35:
+                ops[-1]['consume'] = None
+                ops[-1]['defer'] = True      # requested now (generator not started), read after the next call
             continue
         if k == 'host_mutate':
             ops.append({'op': 'host_mutate', 'which': ro.randint(0, 3), 'how': ro.choice(['append', 'clear', 'set0', 'nested_append'])})
@@ -210,6 +217,22 @@ def _call(side, op):
         return ['base', type(e).__name__, str(e)[:100]]
 
 
+def _drain(g):
+    try:
+        return ['value', list(g)]
+    except Exception as e:
+        return ['exc', type(e).__name__, canon.norm_msg(str(e))]
+
+
+def _hostcall(f, arg):
+    try:
+        return ['value', canon.canon(f(arg), monitors.M.fn_names)]
+    except RecursionError:
+        return ['exc', 'RecursionError']
+    except Exception as e:
+        return ['exc', type(e).__module__ + '.' + type(e).__qualname__, canon.norm_msg(str(e))]
+
+
 def execute(case, ctx):
     from ..history import host_mutate
     cfg = case['world']
@@ -232,6 +255,7 @@ def execute(case, ctx):
         ctx.fault('cache_prewarm')
     fault_seen = False
     used = {}
+    pending = []
     for step, op in enumerate(case['ops']):
         ctx.step = step
         ctx.op_kind(op['op'])
@@ -247,6 +271,38 @@ def execute(case, ctx):
             if [canon.canon(x, monitors.M.fn_names) for x in A.results] != [canon.canon(x, monitors.M.fn_names) for x in B.results]:
                 ctx.report('results_diverged_after_host_mutation', 'step %d: results held by the host differ between cached and uncached worlds' % step,
                            {'kind': 'results_diverged_after_host_mutation'})
+            continue
+        if pending and pending[0][4] >= 1 and not op.get('defer'):
+            # listings requested earlier are read now: at least one parse / eval went through the parsers in between
+            for (st0, src0, ga, gb, _n) in pending:
+                ra, rb = _drain(ga), _drain(gb)
+                ctx.probe('deferred_listing_read')
+                if ra != rb:
+                    ctx.report('cache_not_transparent', 'list_names(%r) requested at step %d and read after the next call: cached parser -> %s ; uncached parser -> %s' % (
+                        src0[:120], st0, str(ra)[:200], str(rb)[:200]), {'kind': 'cache_not_transparent', 'call': 'list_names-deferred'})
+            pending = []
+        if op['op'] == 'hostcall':
+            fa = sorted(k for k, v in A.spaces[op['space']].items() if callable(v))
+            fb = sorted(k for k, v in B.spaces[op['space']].items() if callable(v))
+            if fa and fa == fb:
+                nm = fa[op['which'] % len(fa)]
+                ra = _hostcall(A.spaces[op['space']][nm], op['arg'])
+                rb = _hostcall(B.spaces[op['space']][nm], op['arg'])
+                ctx.fault('call_outside_eval')
+                ctx.probe('host_calls_stored_lambda')
+                na = canon.canon(A.spaces, monitors.M.fn_names)
+                nb = canon.canon(B.spaces, monitors.M.fn_names)
+                if ra != rb or na != nb:
+                    ctx.report('cache_not_transparent', 'step %d: the host called the stored lambda %s(%r) outside any evaluation: cached world -> %s, uncached world -> %s%s' % (
+                        step, nm, op['arg'], str(ra)[:160], str(rb)[:160], '' if na == nb else ' ; names mappings differ afterwards'),
+                        {'kind': 'cache_not_transparent', 'call': 'hostcall'})
+            continue
+        if op.get('defer') and op['op'] == 'list_names':
+            try:
+                pending.append([step, op['src'], A.parser.list_names(op['src']), B.parser.list_names(op['src']), 0])
+                ctx.fault('listing_read_later')
+            except Exception:
+                pass
             continue
         if op['op'] == 'ctx':
             import decimal
@@ -269,6 +325,8 @@ def execute(case, ctx):
         hits0 = A.cache.stats['hit']
         a = _call(A, op)
         b = _call(B, op)
+        for pe in pending:
+            pe[4] += 1
         hit = A.cache.stats['hit'] > hits0
         from ..history import strings_too_big
         if op['op'] == 'eval' and strings_too_big(A.spaces[op['space']]):
